@@ -44,6 +44,9 @@ var vpC01Targets = []vpC01Target{
 	{"&ARGS", vpArgs, false, true},
 	{"&ARGS:k", func(p vpPair) bool { return vpArgs(p) && vpLowerASCII(p.name) == "k" }, false, true},
 	{"ARGS|!ARGS:k", func(p vpPair) bool { return vpArgs(p) && vpLowerASCII(p.name) != "k" }, false, false},
+	{"ARGS|!ARGS:K", func(p vpPair) bool { return vpArgs(p) && vpLowerASCII(p.name) != "k" }, false, false},
+	{"ARGS_NAMES|!ARGS_NAMES:K", func(p vpPair) bool { return vpArgs(p) && vpLowerASCII(p.name) != "k" }, true, false},
+	{"&ARGS|!ARGS:K", func(p vpPair) bool { return vpArgs(p) && vpLowerASCII(p.name) != "k" }, false, true},
 	{"ARGS:/^k/", func(p vpPair) bool { return vpArgs(p) && len(p.name) > 0 && vpLowerASCII(p.name)[0] == 'k' }, false, false},
 	{"ARGS|!ARGS:/^k/", func(p vpPair) bool {
 		return vpArgs(p) && !(len(p.name) > 0 && vpLowerASCII(p.name)[0] == 'k')
